@@ -1,71 +1,278 @@
-(* C13/Dqrepr.v — the dqrepr round trip on a sub-domain: for printable-ASCII
-   arguments utils.str.dqrepr coincides with minimal quoting, so the law follows
-   from the minimal-quote theorem.  The full domain dq_dom (Model.v) is NOT
-   proved here (it needs the \xHH/\uHHHH/\UHHHHHHHH decoder round trip); it is
-   what the harness classifies failures with, and the differential run found no
-   failing argument inside it. *)
-From Coq Require Import List NArith ZArith Bool Lia ZifyBool.
+(* C13/Dqrepr.v — utils.str.dqrepr is an exact inverse of the tokeniser:
+   every list of argument strings (any code points a Python str can hold: NUL,
+   controls, brackets, pipes, quotes, backslashes, Latin-1, lone surrogates,
+   non-BMP), each written with dqrepr, tokenises back to exactly that list.
+   Holds for the code after the repair of finding C13.F15 (the model's
+   decode_quoted only re-assembles UTF-8 when the token had non-ASCII text). *)
+From Coq Require Import List NArith ZArith Bool Lia ZifyBool Arith.
 Import ListNotations.
 Require Import Base.Wire Base.PyStr C13.Utf8 C13.Model C13.Lemmas C13.Roundtrip.
 Open Scope N_scope.
 
-Definition printable (c : N) : bool := (32 <=? c) && (c <? 127).
+Definition valid_cp (c : N) : bool := c <=? MAX_UNICODE.
 
+(* ---- hex digits ---- *)
+Fixpoint pow16 (k : nat) : N := match k with O => 1 | S k' => 16 * pow16 k' end.
+
+Lemma hexval_hexdig d : d < 16 -> hexval (hexdig d) = Some d.
+Proof.
+  intro H. unfold hexdig, hexval. destruct (d <? 10) eqn:E.
+  - replace ((48 <=? 48 + d) && (48 + d <=? 57)) with true by lia. f_equal. lia.
+  - replace ((48 <=? 87 + d) && (87 + d <=? 57)) with false by lia.
+    replace ((97 <=? 87 + d) && (87 + d <=? 102)) with true by lia. f_equal. lia.
+Qed.
+
+Definition plain (x : N) : bool := negb (x =? BSL) && negb (x =? DQ) && (x <? 128).
+
+Lemma hexdig_plain d : d < 16 -> plain (hexdig d) = true.
+Proof. intro H. unfold plain, hexdig, BSL, DQ. destruct (d <? 10) eqn:E; lia. Qed.
+
+Lemma hexn_plain k : forall n, forallb plain (hexn k n) = true.
+Proof.
+  induction k as [|k IH]; intro n; [reflexivity|]. cbn [hexn]. rewrite forallb_app, IH. cbn [forallb].
+  rewrite hexdig_plain; [reflexivity|]. apply N.mod_lt. discriminate.
+Qed.
+
+Lemma div16_lt n p : n < 16 * p -> n / 16 < p.
+Proof. intro H. apply N.div_lt_upper_bound; [discriminate|exact H]. Qed.
+
+Lemma ued_hex_step named j v d rest :
+  d < 16 ->
+  ued named (UH (S (S j)) v) (hexdig d :: rest) = ued named (UH (S j) (v * 16 + d)) rest.
+Proof. intro H. cbn [ued]. rewrite (hexval_hexdig d H). reflexivity. Qed.
+
+Lemma ued_hex_last named v d rest :
+  d < 16 ->
+  ued named (UH 1 v) (hexdig d :: rest)
+  = if MAX_UNICODE <? v * 16 + d then Raise UnicodeError else cons_res (v * 16 + d) (ued named UN rest).
+Proof. intro H. cbn [ued]. rewrite (hexval_hexdig d H). reflexivity. Qed.
+
+Lemma ued_hex named k : forall j v n rest,
+  n < pow16 k ->
+  ued named (UH (k + S j) v) (hexn k n ++ rest) = ued named (UH (S j) (v * pow16 k + n)) rest.
+Proof.
+  induction k as [|k IH]; intros j v n rest Hn.
+  - cbn [pow16] in *. assert (n = 0) by lia. subst n. cbn [hexn app Nat.add].
+    replace (v * 1 + 0) with v by lia. reflexivity.
+  - cbn [pow16] in Hn. cbn [hexn]. rewrite <- app_assoc. cbn [app].
+    replace (S k + S j)%nat with (k + S (S j))%nat by lia.
+    rewrite IH by (apply div16_lt; exact Hn).
+    rewrite ued_hex_step by (apply N.mod_lt; discriminate).
+    f_equal. f_equal. cbn [pow16].
+    pose proof (N.div_mod n 16 ltac:(discriminate)) as Hd.
+    set (q := n / 16) in *. set (r := n mod 16) in *. clearbody q r. subst n.
+    set (p := pow16 k). clearbody p. ring.
+Qed.
+
+(* k+1 hex digits of c decode to c *)
+Lemma ued_hex_full named k c rest :
+  c < pow16 (S k) -> valid_cp c = true ->
+  ued named (UH (S k) 0) (hexn (S k) c ++ rest) = cons_res c (ued named UN rest).
+Proof.
+  intros Hc Hv. cbn [hexn]. rewrite <- app_assoc. cbn [app].
+  replace (S k) with (k + 1)%nat at 1 by lia.
+  rewrite ued_hex by (apply div16_lt; exact Hc).
+  rewrite ued_hex_last by (apply N.mod_lt; discriminate).
+  pose proof (N.div_mod c 16 ltac:(discriminate)) as Hd.
+  replace ((0 * pow16 k + c / 16) * 16 + c mod 16) with c by lia.
+  unfold valid_cp in Hv. replace (MAX_UNICODE <? c) with false by lia. reflexivity.
+Qed.
+
+(* ---- the shape of one escaped character ---- *)
 Lemma esc_dq_app a b : esc_dq (a ++ b) = esc_dq a ++ esc_dq b.
 Proof. unfold esc_dq. apply flat_map_app. Qed.
 
-Lemma printable_enc c :
-  printable c = true ->
-  esc_dq (ue_enc1 c) = (if c =? BSL then [BSL; BSL] else if c =? DQ then [BSL; DQ] else [c]).
+Lemma esc_dq_plain l : forallb plain l = true -> esc_dq l = l.
 Proof.
-  unfold printable, ue_enc1. intro H.
-  replace (c <? 256) with true by lia. rewrite H.
-  destruct (c =? BSL) eqn:Eb; [reflexivity|].
-  unfold esc_dq. cbn [flat_map]. rewrite app_nil_r. reflexivity.
+  induction l as [|x l IH]; [reflexivity|]. cbn [forallb]. intro H.
+  apply andb_true_iff in H as [Hx Hl]. unfold esc_dq. cbn [flat_map]. fold (esc_dq l). rewrite (IH Hl).
+  unfold plain in Hx. replace (x =? DQ) with false by lia. reflexivity.
 Qed.
 
-Lemma dqrepr_printable a : forallb printable a = true -> dqrepr a = minimal_quote a.
+Inductive shape (c : N) (ch : str) : Prop :=
+| ShPlain : ch = [c] -> plain c = true -> shape c ch
+| ShSimple x : ch = [BSL; x] -> bs_action x = ASimple c -> x <? 128 = true -> shape c ch
+| ShHex x k : ch = BSL :: x :: hexn (S k) c -> bs_action x = AHex (S k) -> plain x = true ->
+              c < pow16 (S k) -> shape c ch.
+
+Lemma hex_chunk_esc x k c : plain x = true -> esc_dq (BSL :: x :: hexn (S k) c) = BSL :: x :: hexn (S k) c.
 Proof.
-  intro H. unfold dqrepr, minimal_quote. f_equal. f_equal.
-  induction a as [|c a IH]; [reflexivity|].
-  cbn [forallb] in H. apply andb_true_iff in H as [Hc Ha].
-  unfold unicode_escape_encode. cbn [flat_map]. rewrite esc_dq_app.
-  fold (unicode_escape_encode a). rewrite (IH Ha). rewrite (printable_enc c Hc).
-  rewrite mq_esc_cons. reflexivity.
+  intro Hx. change (BSL :: x :: hexn (S k) c) with ([BSL] ++ (x :: hexn (S k) c)).
+  rewrite esc_dq_app. rewrite (esc_dq_plain (x :: hexn (S k) c)); [reflexivity|].
+  cbn [forallb]. rewrite Hx, hexn_plain. reflexivity.
 Qed.
 
-Lemma printable_scalar a : forallb printable a = true -> forallb scalar a = true.
+Lemma enc1_shape c : valid_cp c = true -> shape c (esc_dq (ue_enc1 c)).
 Proof.
-  induction a as [|c a IH]; [reflexivity|]. cbn [forallb]. intro H.
-  apply andb_true_iff in H as [Hc Ha]. rewrite (IH Ha), andb_true_r.
-  unfold printable in Hc. unfold scalar, is_surrogate. lia.
+  intro Hv. unfold valid_cp, MAX_UNICODE in Hv. unfold ue_enc1.
+  destruct (c <? 256) eqn:E256.
+  - destruct ((32 <=? c) && (c <? 127)) eqn:Ep.
+    + destruct (c =? BSL) eqn:Eb.
+      * apply N.eqb_eq in Eb. subst c. apply (ShSimple _ _ BSL); reflexivity.
+      * destruct (c =? DQ) eqn:Ed.
+        -- apply N.eqb_eq in Ed. subst c. apply (ShSimple _ _ DQ); reflexivity.
+        -- apply ShPlain.
+           ++ unfold esc_dq. cbn [flat_map]. rewrite Ed. reflexivity.
+           ++ unfold plain. rewrite Eb, Ed. cbn [negb andb]. lia.
+    + destruct (c =? 9) eqn:E9; [apply N.eqb_eq in E9; subst c; apply (ShSimple _ _ 116); reflexivity|].
+      destruct (c =? 10) eqn:E10; [apply N.eqb_eq in E10; subst c; apply (ShSimple _ _ 110); reflexivity|].
+      destruct (c =? 13) eqn:E13; [apply N.eqb_eq in E13; subst c; apply (ShSimple _ _ 114); reflexivity|].
+      apply (ShHex _ _ 120 1%nat); [apply hex_chunk_esc; reflexivity|reflexivity|reflexivity|].
+      change (pow16 2) with 256. lia.
+  - destruct (c <? 65536) eqn:E64.
+    + apply (ShHex _ _ 117 3%nat); [apply hex_chunk_esc; reflexivity|reflexivity|reflexivity|].
+      change (pow16 4) with 65536. lia.
+    + apply (ShHex _ _ 85 7%nat); [apply hex_chunk_esc; reflexivity|reflexivity|reflexivity|].
+      change (pow16 8) with 4294967296. lia.
 Qed.
 
-Lemma printable_dom a : forallb printable a = true -> dq_dom a = true.
+(* ---- consumers of the shape ---- *)
+Lemma qb_plain l rest : forallb plain l = true -> qb_ok DQ false (l ++ rest) = qb_ok DQ false rest.
 Proof.
-  intro H. unfold dq_dom.
-  assert (Ha : forallb is_ascii a = true).
-  { induction a as [|c a IH]; [reflexivity|]. cbn [forallb] in *.
-    apply andb_true_iff in H as [Hc Hr]. rewrite (IH Hr), andb_true_r.
-    unfold printable in Hc. unfold is_ascii. lia. }
-  rewrite Ha. reflexivity.
+  induction l as [|x l IH]; [reflexivity|]. cbn [forallb]. intro H.
+  apply andb_true_iff in H as [Hx Hl]. cbn [app qb_ok]. unfold plain in Hx.
+  replace (N.eqb x BSL) with false by lia. replace (N.eqb x DQ) with false by lia.
+  cbn [negb andb]. apply IH. exact Hl.
 Qed.
 
-Theorem dqrepr_roundtrip_printable named c args :
-  mem DQ (c_quotes c) = true -> Forall (fun a => forallb printable a = true) args ->
-  Forall (fun a => dq_dom a = true) args /\
+Lemma qb_escape x rest : qb_ok DQ false (BSL :: x :: rest) = qb_ok DQ false rest.
+Proof.
+  cbn [qb_ok]. change (N.eqb BSL BSL) with true. cbv iota. cbn [negb].
+  destruct (N.eqb x BSL); [reflexivity|]. cbn [andb]. reflexivity.
+Qed.
+
+Lemma qb_shape c ch rest : shape c ch -> qb_ok DQ false (ch ++ rest) = qb_ok DQ false rest.
+Proof.
+  intros [E Hp | x E _ _ | x k E _ Hx _]; subst ch.
+  - apply (qb_plain [c]). cbn [forallb]. rewrite Hp. reflexivity.
+  - cbn [app]. apply qb_escape.
+  - cbn [app]. rewrite qb_escape. apply qb_plain. apply hexn_plain.
+Qed.
+
+Lemma ued_shape named c ch rest :
+  valid_cp c = true -> shape c ch -> ued named UN (ch ++ rest) = cons_res c (ued named UN rest).
+Proof.
+  intros Hv [E Hp | x E Ha _ | x k E Ha _ Hc]; subst ch.
+  - cbn [app ued]. unfold plain in Hp. replace (c =? BSL) with false by lia. reflexivity.
+  - cbn [app ued]. change (BSL =? BSL) with true. cbv iota. rewrite Ha. reflexivity.
+  - cbn [app ued]. change (BSL =? BSL) with true. cbv iota. rewrite Ha.
+    apply ued_hex_full; assumption.
+Qed.
+
+Lemma plain_ascii l : forallb plain l = true -> forallb is_ascii l = true.
+Proof.
+  induction l as [|x l IH]; [reflexivity|]. cbn [forallb]. intro H.
+  apply andb_true_iff in H as [Hx Hl]. rewrite (IH Hl), andb_true_r. unfold plain in Hx. unfold is_ascii. lia.
+Qed.
+
+Lemma ascii_shape c ch : shape c ch -> forallb is_ascii ch = true.
+Proof.
+  intros [E Hp | x E _ Hx | x k E _ Hx _]; subst ch.
+  - apply (plain_ascii [c]). cbn [forallb]. rewrite Hp. reflexivity.
+  - cbn [forallb]. unfold is_ascii at 2. rewrite Hx. reflexivity.
+  - cbn [forallb]. change (is_ascii BSL) with true. cbn [andb].
+    apply (plain_ascii (x :: hexn (S k) c)). cbn [forallb]. rewrite Hx, hexn_plain. reflexivity.
+Qed.
+
+Definition dq_body (a : str) : str := esc_dq (unicode_escape_encode a).
+
+Lemma dq_body_cons c a : dq_body (c :: a) = esc_dq (ue_enc1 c) ++ dq_body a.
+Proof. unfold dq_body, unicode_escape_encode. cbn [flat_map]. apply esc_dq_app. Qed.
+
+Lemma dq_body_facts (named : bytes -> option N) a :
+  forallb valid_cp a = true ->
+  qb_ok DQ false (dq_body a) = true /\ ued named UN (dq_body a) = Ok a /\ forallb is_ascii (dq_body a) = true.
+Proof.
+  induction a as [|c a IH]; intro H; [repeat split; reflexivity|].
+  cbn [forallb] in H. apply andb_true_iff in H as [Hc Ha]. destruct (IH Ha) as [I1 [I2 I3]].
+  pose proof (enc1_shape c Hc) as Sh. rewrite dq_body_cons. repeat split.
+  - rewrite (qb_shape c _ _ Sh). exact I1.
+  - rewrite (ued_shape named c _ _ Hc Sh). rewrite I2. reflexivity.
+  - rewrite forallb_app, (ascii_shape c _ Sh), I3. reflexivity.
+Qed.
+
+(* ---- lexer, _handleToken and the main loop on dqrepr tokens ---- *)
+Lemma dqrepr_eq a : dqrepr a = DQ :: dq_body a ++ [DQ].
+Proof. reflexivity. Qed.
+
+Lemma lex_dqrepr (named : bytes -> option N) t a rest :
+  mem DQ (quotes t) = true -> forallb valid_cp a = true ->
+  lex t LSp [] (dqrepr a ++ rest) = emit (dqrepr a) (lex t LSp [] rest).
+Proof.
+  intros Hq Ha. destruct (dq_body_facts named a Ha) as [Hqb _].
+  rewrite dqrepr_eq. cbn [app]. rewrite lex_open_quote by exact Hq.
+  rewrite <- app_assoc. cbn [app]. rewrite lex_quote_gen by (exact Hqb || reflexivity). reflexivity.
+Qed.
+
+Lemma handle_dqrepr named t a :
+  mem DQ (quotes t) = true -> forallb valid_cp a = true ->
+  handle_token named t (dqrepr a) = Ok a.
+Proof.
+  intros Hq Ha. destruct (dq_body_facts named a Ha) as [_ [Hu Hasc]].
+  unfold handle_token. rewrite dqrepr_eq.
+  change (DQ :: dq_body a ++ [DQ]) with ((DQ :: dq_body a) ++ [DQ]) at 1.
+  rewrite last_snoc. rewrite N.eqb_refl, Hq. cbn [andb tl]. rewrite removelast_last.
+  unfold decode_quoted, unicode_escape_decode. rewrite Hasc. cbn [negb].
+  rewrite (ascii_encode _ Hasc). cbn [bind]. rewrite Hu. reflexivity.
+Qed.
+
+Lemma dqrepr_two a : exists y r, dqrepr a = DQ :: y :: r.
+Proof.
+  rewrite dqrepr_eq. destruct (dq_body a ++ [DQ]) as [|y r] eqn:E.
+  - apply app_eq_nil in E as [_ E]. discriminate.
+  - exists y, r. reflexivity.
+Qed.
+
+Lemma lex_join_dqrepr (named : bytes -> option N) t args :
+  mem DQ (quotes t) = true -> Forall (fun a => forallb valid_cp a = true) args ->
+  lex_all t (join [SP] (map dqrepr args)) = (map dqrepr args, None).
+Proof.
+  intros Hq Hall. unfold lex_all. induction args as [|a args IH]; [reflexivity|].
+  inversion Hall as [|? ? Ha Hr]; subst. specialize (IH Hr).
+  destruct args as [|b args'].
+  - cbn [map join]. rewrite <- (app_nil_r (dqrepr a)) at 1.
+    rewrite (lex_dqrepr named) by assumption. reflexivity.
+  - change (join [SP] (map dqrepr (a :: b :: args')))
+      with (dqrepr a ++ [SP] ++ join [SP] (map dqrepr (b :: args'))).
+    rewrite (lex_dqrepr named) by assumption.
+    cbn [app]. cbn [lex]. destruct ws_facts as [_ Hs]. rewrite Hs. rewrite IH. reflexivity.
+Qed.
+
+Lemma top_dqrepr named t args : forall f acc,
+  mem DQ (quotes t) = true -> Forall (fun a => forallb valid_cp a = true) args ->
+  (length args < f)%nat ->
+  top named t f (map dqrepr args) None acc [] = Ok (rev acc ++ map Leaf args).
+Proof.
+  induction args as [|a args IH]; intros f acc Hq Hall Hf.
+  - destruct f; [inversion Hf|]. cbn [map top finish]. rewrite app_nil_r. reflexivity.
+  - destruct f; [inversion Hf|]. inversion Hall as [|? ? Ha Hr]; subst.
+    cbn [map top]. destruct (dqrepr_two a) as [y [r E]].
+    assert (Hp : seq_eqb (dqrepr a) [gen.T13.PIPE] = false) by (rewrite E; apply seq_eqb_two).
+    assert (Hl : is_left t (dqrepr a) = false).
+    { unfold is_left. destruct (brk t) as [[l r']|]; [|reflexivity]. rewrite E. apply seq_eqb_two. }
+    assert (Hrt : is_right t (dqrepr a) = false).
+    { unfold is_right. destruct (brk t) as [[l r']|]; [|reflexivity]. rewrite E. apply seq_eqb_two. }
+    rewrite Hp, Hl, Hrt. cbn [andb].
+    rewrite (handle_dqrepr named t a Hq Ha).
+    rewrite IH; [|exact Hq|exact Hr|cbn [length] in Hf; apply Nat.succ_lt_mono; exact Hf].
+    cbn [rev]. rewrite <- app_assoc. reflexivity.
+Qed.
+
+Theorem dqrepr_roundtrip named c args :
+  mem DQ (c_quotes c) = true -> Forall (fun a => forallb valid_cp a = true) args ->
   tokenize named c (join [SP] (map dqrepr args)) = Ok (map Leaf args).
 Proof.
-  intros Hq Hall. split.
-  { eapply Forall_impl; [|exact Hall]. intros a Ha. apply printable_dom. exact Ha. }
-  assert (E : map dqrepr args = map minimal_quote args).
-  { apply map_ext_in. intros a Hin. rewrite Forall_forall in Hall. apply dqrepr_printable. apply Hall. exact Hin. }
-  rewrite E. apply quote_roundtrip; [exact Hq|].
-  eapply Forall_impl; [|exact Hall]. intros a Ha. apply printable_scalar. exact Ha.
+  intros Hq Hall. unfold tokenize, tokenizer_tokenize.
+  assert (Hq' : mem DQ (quotes (tk_of c)) = true) by (unfold tk_of; destruct (c_nested c); exact Hq).
+  rewrite (lex_join_dqrepr named (tk_of c) args Hq' Hall).
+  rewrite top_dqrepr; [reflexivity|exact Hq'|exact Hall|rewrite map_length; apply Nat.lt_succ_diag_r].
 Qed.
 
-Example dqrepr_printable_example named :
-  let args := [[91; 97; 93; 124]; [DQ; BSL; SP; 39]; []] in
-  Forall (fun a => forallb printable a = true) args
+(* non-vacuity: brackets, pipe, quotes, backslash, NUL/CR/LF/TAB, DEL, Latin-1 that is valid UTF-8 (the former
+   C13.F15 witness), a lone surrogate, non-BMP, the empty string *)
+Example dqrepr_roundtrip_example named :
+  let args := [[91; 93; 124]; [DQ; BSL; SP; 39]; [0; 13; 10; 9; 127]; [0xC2; 0x80]; [0xC3; 0xA9]; [0xD800];
+               [0x597D; 0x1F600; 0x10FFFF]; []] in
+  Forall (fun a => forallb valid_cp a = true) args
   /\ tokenize named (Cfg true (Some (91, 93)) true [DQ; 39]) (join [SP] (map dqrepr args)) = Ok (map Leaf args).
 Proof. split; [repeat constructor|vm_compute; reflexivity]. Qed.
